@@ -46,7 +46,8 @@ def cases(draw, strategy, concurrent):
     return ['store', draw(st.sampled_from(c02.METRICS[:nm])), draw(st.sampled_from(tss if lag else tss[:nts])), counter[0]]
 
   def wait():
-    return ['wait', draw(st.sampled_from([0.5, 1, 3, 6]))]
+    # (a slow disk or a huge cache: a single pass may take minutes)
+    return ['wait', draw(st.sampled_from([0.5, 1, 3, 6, 6, 120, 400]))]
   if concurrent:
     recv = []
     for _ in range(draw(st.integers(2, 10))):
@@ -66,11 +67,16 @@ def cases(draw, strategy, concurrent):
     ops = []
     for _ in range(draw(st.integers(3, 50))):
       k = draw(st.integers(0, 9))
-      ops.append(['drain'] if k < 3 else (wait() if k == 3 and lag else store()))
+      ops.append(['drain'] if k < 3 else (wait() if k == 3 and (lag or draw(st.booleans())) else store()))
     for _ in range(draw(st.sampled_from([0, 0, 1, 2]))):
       ops.insert(draw(st.integers(0, len(ops))), ['query', draw(st.sampled_from(c02.METRICS[:nm + 1]))])
     if draw(st.integers(0, 4)) == 0:
       ops.insert(draw(st.integers(0, len(ops))), ['full_elsewhere'])
+    if draw(st.integers(0, 3)) == 0:
+      # a slow pass: the first drain of a pass, minutes of (virtual) time, new datapoints for the metric just
+      # drained, then the rest of the pass
+      ops = [store() for _ in range(draw(st.integers(4, 9)))] + [['drain'], ['wait', draw(st.sampled_from([120, 301, 400, 4000]))]]
+      ops += [store() for _ in range(draw(st.integers(1, 4)))] + [['drain'] for _ in range(draw(st.integers(1, 4)))]
     programs = [ops, []]
     switches = []
   case = {'strategy': strategy, 'programs': programs, 'switches': switches, 'lag': lag,
